@@ -83,6 +83,10 @@ def run_variant(v):
     try:
         if v.get('reformat'):
             reformat(root)
+        if v.get('transform'):
+            from .selftest_transforms import apply_transform
+            if apply_transform(root, v['transform']) == 0:
+                raise RuntimeError('transformation %s changed nothing' % v['transform'])
         if v.get('edits'):
             apply_edits(root, v['edits'])
         if v.get('patch'):
